@@ -21,6 +21,9 @@ static void on_alloc(unsigned kind, unsigned idx);
 static void on_free(u8* p);
 #define VP_ON_ALLOC(k, i) on_alloc(k, i)
 #define VP_ON_FREE(p) on_free(p)
+static unsigned queue_given;
+static u8* typed_new(u64 n) { if (n == vp_queue_objsize() && !queue_given) { queue_given = 1; return vp_queue_mem(); } return 0; }
+#define VP_TYPED_NEW(n) typed_new(n)
 #include "fg14_stubs.h"
 #ifndef NSUCC
 #define NSUCC 1
@@ -185,7 +188,7 @@ static void settled(void) {
     for (unsigned s = 0; s < NSUCC; s++) VP_ASSERT(off[k][s] == want[k][s], "a body output was not offered to a registered successor (lost)");
 }
 static void run(unsigned accpat, unsigned flippat) {
-  fg_reset();
+  fg_reset(); queue_given = 0;
   nmsg = 0; running = inline_running = body_tasks_created = task_bodies_finished = nbody = nsinkcall = noffer = 0; acc_bits = accpat; flip_bits = flippat;
   cancelled = nreserved = task_body_pending = in_task = 0; live_ext = live_arena = 0; src_left = AVAIL; src_given = n_regsucc = pred_added = 0; fifo_next = 0; nput_true = 0;
   for (unsigned i = 0; i < MAXM; i++) { msg_st[i] = ST_NONE; for (unsigned s = 0; s < 3; s++) off[i][s] = want[i][s] = 0; }
